@@ -32,8 +32,10 @@ def sh(cmd, cwd=None, timeout=7200):
 
 
 def main():
+    global ST
     sid = sys.argv[1]
     pid = sid.split("-")[0]
+    ST = f"/tmp/st/{sid}"  # per seed: two concurrent evaluations must not share the patched copy
     skip_confirm = "--skip-confirm" in sys.argv
     tier = "thorough" if "--thorough" in sys.argv else "quick"
     out = f"{SEED}/out/{sid}"
